@@ -206,6 +206,9 @@ def catalogue(tier="quick", seed=0):
     cat.append(struct([("r", ref(p1)), ("ar", array(ref(sta_struct()), (None,))), ("a", array(F64, (None,)))], "R"))
     cat.append(struct([("u", uref([sta_struct(), dyn_struct()])), ("n", I32)], "R"))
     cat.append(struct([("rr", ref(array(F64, (None, None), (1, 0)))), ("ra", ref(array(dyn_struct(), (None,)))), ("s", STR)], "R"))
+    # the same member classes in two unions, at different member positions
+    pm, tm = sta_struct(), dyn_struct()
+    cat.append(struct([("u1", uref([pm, tm])), ("u2", uref([tm, pm])), ("n", I32), ("au", array(uref([tm, pm]), (None,)))], "R"))
     cat.append(array(ref(dyn_struct()), (2, None), (1, 0)))
     cat.append(array(uref([sta_struct(), array(I32, (None,))]), (None,)))
     cat.append(uref([sta_struct(), dyn_struct(), array(F64, (None,))]))
